@@ -25,7 +25,7 @@ for p in props:
             'evidence_file': f'/verif/evidence/{i}.json',
             'replay_cmd_template': f'./bin/check {i} --replay {{path}}',
             'engine': m.get('engine', 'E1'),
-            'level_claimed': {'category': level, 'text': m.get('text', ''), 'design_ref': f'DESIGN.md §3 {i}'},
+            'level_claimed': {'category': level, 'text': m.get('text', ''), 'design_ref': f'DESIGN.md §3 {i} (plan), §9.3 (as built), §9.4–9.6 (what catches what; false-alarm tests)'},
             'level_note': m.get('note', ''),
             'technique': m.get('technique', ''),
         })
